@@ -61,6 +61,11 @@ pub fn spec_alphabet(ty: NumTy, b: &[i128], with_alternatives: bool) -> Vec<Vec<
             out.push(vec![num_spec(ty, x), s(format!("{y}..{z}"))]);
             out.push(vec![s(format!(" {x} ..= {z} "))]);
             out.push(vec![s(format!("{x}.. ={z}"))]);
+            // lists whose entries are themselves `a | b` alternatives, in first / middle / last position
+            out.push(vec![s(format!("{x} | {y}")), num_spec(ty, z)]);
+            out.push(vec![num_spec(ty, z), s(format!("{x} | {y}"))]);
+            out.push(vec![s(format!("{x}|{y}")), s(format!("{z}..")), num_spec(ty, x)]);
+            out.push(vec![num_spec(ty, x), s(format!("{y} | {z}")), s(format!("..{x}"))]);
         }
     }
     out
@@ -86,6 +91,8 @@ fn float_alphabet() -> Vec<Vec<CountSpec>> {
         }
     }
     out.push(vec![s("0.5 | 2.25..".into())]);
+    out.push(vec![s("0.5 | 1".into()), CountSpec::Float("2.25".into())]);
+    out.push(vec![CountSpec::Float("2.25".into()), s("-1.5 | 0.5".into())]);
     out.push(vec![CountSpec::Float("0.5".into()), s("1..=2.25".into())]);
     out
 }
